@@ -566,6 +566,80 @@ def stage_working(ctx, units, nmax, known):
     ctx.cov["traces_validated_against_impl"] = ctx.cov.get("traces_validated_against_impl", 0) + ctx.cov.get("working_streams_ok", 0)
 
 
+def gen_threshold_cfg(rng):
+    """rational ratios whose reduced denominator L sits at one of the planner's size decisions: the largest exact poly-phase table the
+    planner allows (mode 0: coef_size_kbytes*1000 / (42 or 44 taps * sizeof sample); otherwise 2048), and the table size at which it
+    falls back to an interpolated one; default and small coef_size_kbytes; every recipe incl. the 16-bit ones and the LSR ones"""
+    kb = rng.choice([400, 400, 100, 50, 200, 800])
+    size = rng.choice([4, 4, 8])
+    t = rng.choice([kb * 1000 / (42 * size), kb * 1000 / (44 * size), kb * 1000 / (42 * size), kb * 1000 / (44 * size), 2048, 1024,
+                    kb * 1000 / (20 * size), kb * 1000 / (100 * size)])
+    L = max(2, int(t * rng.uniform(.93, 1.07)))
+    M = max(1, int(L * 2.0 ** rng.uniform(-3, 3)))
+    for _ in range(50):
+        if math.gcd(L, M) == 1 and M != L:
+            break
+        M += 1
+    cfg = {"ir": str(M), "or": str(L), "recipe": rng.choice([1, 1, 1, 1, 2, 3, 4, 6, 8, 10, 0x41]), "qflags": 16 if size == 8 else 0}
+    if kb != 400:
+        cfg["kb"] = kb
+    if rng.chance(.15):
+        cfg["rtflags"] = rng.choice([2, 3])
+    return cfg, ({"SOXR_USE_SIMD": "0"} if rng.chance(.3) else {})
+
+
+def stage_thresholds(ctx, n, known):
+    """accepted => working at the planner's size decisions (see gen_threshold_cfg): created under ASan/UBSan with asserts on, exported plan
+    replayed through the Lean count model, a short stream run to its end under a watchdog, total compared."""
+    exe = common.build_harness("crtrace", ["cr/trace.c"], "san")
+    jobs = [gen_threshold_cfg(ctx.rng) for _ in range(n)]
+
+    def work(j):
+        cfg, env = j
+        tr0 = cr.run_trace(exe, [cr.create_line(cfg)], env, timeout=120)
+        if not tr0.created:
+            return cfg, env, ("refused" if tr0.rc == 0 else "create-crash"), tr0, None
+        if cl.plan_load(tr0.plan)[0] >= 2.0 ** 22:
+            return cfg, env, "skip-memory", tr0, None
+        up = float(cfg["or"]) / float(cfg["ir"])
+        ops, nfr = working_ops(common.Rng(int(cfg["ir"]) * 7919 + int(cfg["or"])), cfg, tr0.plan, up)
+        return cfg, env, "ran", cr.run_trace(exe, ops, env, timeout=300), (ops, nfr)
+
+    for cfg, env, how, tr, job in cr.pmap(work, jobs):
+        ctx.count("evaluations")
+        ctx.hist("threshold_runs", how)
+        bad = None
+        if how == "create-crash":
+            bad = "soxr_create does not return normally (exit %s): %s" % (tr.rc, tr.err[-500:])
+        elif how == "ran":
+            ops, nfr = job
+            ctx.hist("threshold_stages", "+".join(x["kind"] for x in tr.plan) or "none")
+            if tr.rc == "timeout":
+                bad = "hang: the stream did not end within 300 s"
+            elif tr.rc != 0:
+                bad = "crash / sanitizer report (exit %s): %s" % (tr.rc, tr.err[-700:])
+            else:
+                d = cr.diff_model(tr)
+                h = next((l for l in tr.hashes), "")
+                out = int(cr.parse_kv(h).get("out", -1)) if h else -1
+                expect, near = cr.owed_exact(nfr, cfg)
+                if d:
+                    bad = "count model and real engine disagree at %s: real %s / model %s" % (d[1], d[2][:200], d[3][:200])
+                elif out != expect and not (near and abs(out - expect) <= 1):
+                    bad = "stream of %d frames delivered %d, round(N*orate/irate) = %d" % (nfr, out, expect)
+                elif "err=-" not in h:
+                    bad = "error recorded during a plain stream: %s" % h[:200]
+        if bad:
+            hits = [h for h in cr.classify_known(tr.plan, cfg) if h in known and site_ok(h, tr.rc, tr.err)]
+            if hits:
+                ctx.known(hits[0], known[hits[0]]["what"]); ctx.hist("known_hits", hits[0])
+            else:
+                violation(ctx, "working", "C09 accepted => working fails on the real code: %s (%s %s)" % (bad, cr.create_line(cfg), env),
+                          {"stage": "thresholds", "trace_ops": (job[0] if job else [cr.create_line(cfg)]), "env": env, "plan": tr.plan, "what": bad})
+        elif how == "ran":
+            ctx.count("working_streams_ok")
+
+
 PINNED = [
     # (finding id, probe ops, which harness variant, expectation)
     ("F5", ["create ir=%d or=%d ch=1 recipe=1 large=8 E.SOXR_USE_SIMD=%s" % (cl.d2b(1.0), cl.d2b(8192.0), cl.hexs("1"))], "dead"),
@@ -658,6 +732,7 @@ def run(ctx):
     units = stage_create(ctx, exe, 5000 if ctx.quick else 120000, known)
     stage_api(ctx, exe, 1500 if ctx.quick else 60000, known)
     stage_working(ctx, units, 220 if ctx.quick else 5000, known)
+    stage_thresholds(ctx, 400 if ctx.quick else 6000, known)
     stage_pinned(ctx, exe, known)
     ctx.cov["rule"] = ("generated soxr_create calls over the product space (rates: audio / small integers / 1e-300..1e300 decades / the 2^31 factor bound / "
                        "big up-sampling / zeros, signs, non-finite, overflowing quotients; channels 0..300; recipes 0..15 x phase bits x steep x flag words; "
